@@ -121,19 +121,24 @@ static jwt_checker_t *mk_checker(int cfg)
 
 static void put_msg(const char *m) { char b[72]; snprintf(b, sizeof(b), "%.64s", m ? m : ""); vh_put_jstr(stdout, b); }
 
+/* clock readings that an implementation may treat specially ((time_t)-1 is also time()'s error value); a step at one of them is judged
+ * against the fresh twin only (the pristine table is taken at NOW) */
+static const int64_t ODD_CLOCK[] = { -1, -2, 0, 1, 2147483647LL, 2147483648LL, 4294967295LL, 4294967296LL, 253402300800LL };
+static int odd_clock = -1;	/* index into ODD_CLOCK for the current step, -1: the regular clock */
 static void verify_step(long hist, int step, int cfg, jwt_checker_t *reused, int tok, int clear)
 {
 	jwt_checker_t *fresh = mk_checker(cfg);
 	int rr, rf, er, ef;
 	char mr[80], mf[80];
-	vh_now = NOW;
+	vh_now = odd_clock >= 0 ? (time_t)ODD_CLOCK[odd_clock] : NOW;
 	if (clear) jwt_checker_error_clear(reused);
 	rr = jwt_checker_verify(reused, TOK[tok]);
 	er = jwt_checker_error(reused); snprintf(mr, sizeof(mr), "%.64s", jwt_checker_error_msg(reused));
 	rf = jwt_checker_verify(fresh, TOK[tok]);
 	ef = jwt_checker_error(fresh); snprintf(mf, sizeof(mf), "%.64s", jwt_checker_error_msg(fresh));
 	printf("[\"V\",%ld,%d,%d,%d,%d,%d,%d,", hist, step, cfg, tok, clear, rr, er); put_msg(mr);
-	printf(",%d,%d,", rf, ef); put_msg(mf); printf(",%d]\n", PRISTINE[cur_prov][cfg][tok]);
+	printf(",%d,%d,", rf, ef); put_msg(mf);
+	if (odd_clock >= 0) printf(",null]\n"); else printf(",%d]\n", PRISTINE[cur_prov][cfg][tok]);
 	jwt_checker_free(fresh);
 }
 
@@ -199,7 +204,7 @@ static void gen_step(long hist, int step, int cfg, jwt_builder_t *reused, bctx_t
 	char *tr, *tf, mr[80], mf[80];
 	int er, ef, same_hp = 0, same = 0, refr = -1, reff = -1;
 	const vh_key_t *vk = cfg == 1 ? &K1 : cfg == 2 ? &KEC : cfg == 3 ? &KED : cfg == 4 ? &KRSA : NULL;
-	vh_now = NOW + step;
+	vh_now = odd_clock >= 0 ? (time_t)ODD_CLOCK[odd_clock] : NOW + step;
 	rctx->action = action; rctx->step = step;
 	if (clear) jwt_builder_error_clear(reused);
 	/* reconfiguration between generates, applied to the reused builder and to its fresh twin alike:
@@ -353,8 +358,11 @@ int main(int argc, char **argv)
 			if (vh_below(&rng, 3)) {
 				int cfg = (int)vh_below(&rng, NCFG);
 				jwt_checker_t *c = mk_checker(cfg);
-				for (int s = 0; s < len; s++)
+				for (int s = 0; s < len; s++) {
+					odd_clock = vh_below(&rng, 5) == 0 ? (vh_below(&rng, 2) ? 0 : (int)vh_below(&rng, 9)) : -1;
 					verify_step(h, s, cfg, c, (int)vh_below(&rng, NTOK), (int)vh_below(&rng, 2));
+				}
+				odd_clock = -1;
 				jwt_checker_free(c);
 			} else {
 				int cfg = (int)vh_below(&rng, NBCFG);
@@ -362,8 +370,11 @@ int main(int argc, char **argv)
 				jwt_builder_t *b;
 				nocb = (int)vh_below(&rng, 2);
 				b = mk_builder(cfg, &ctx);
-				for (int s = 0; s < len; s++)
+				for (int s = 0; s < len; s++) {
+					odd_clock = vh_below(&rng, 5) == 0 ? (vh_below(&rng, 2) ? 0 : (int)vh_below(&rng, 9)) : -1;
 					gen_step(h, s, cfg, b, &ctx, (int)vh_below(&rng, 10), (int)vh_below(&rng, 2));
+				}
+				odd_clock = -1;
 				jwt_builder_free(b);
 			}
 		}
